@@ -13,7 +13,14 @@ bytes, or the same error family.  Sources of programs:
   (c) Table D sequences of the bundled tables of versions >= 19 with forced delayed-replication factors
       (all assignments in 0..3 when there are at most three un-nested ones, random otherwise),
   (d) corpus files (decode; re-encode from the flat JSON),
-  (e) cache sizes {0, 1, 2, 50} with random message orders over >= 5 templates and >= 2 table versions.
+  (e) cache sizes {0, 1, 2, 50}: request histories over FAMILIES of near-identical templates (same top-level member
+      ids but another replication body / factor / nested body / operator inside the span, fixed vs delayed replication
+      of one body, same ids under two table versions, prefixes, permutations, same set of ids with other
+      multiplicities, a sequence vs its expansion, operators that differ in the operand), two data variants per
+      template (other values and counts, compressed or not), orders that stay inside a family most of the time (a
+      cache of one entry mixes up neighbours only); every compiled result is compared with the uncompiled one of the
+      same message, decode and encode; a failing history is shrunk to two requests.
+The cases are evaluated in chunks on up to 16 processes (one model driver each), merged in a fixed order.
 CORRESPONDENCE (model vs implementation): the compiled statement list (`to_dict()` vs the model's `dump`),
 the model's `exec` of the compiled program (and of the dumped + re-loaded program) vs the implementation's
 compiled decode / encode, the cache key list after every request vs the model's `getOrCompile`.
@@ -21,10 +28,15 @@ compiled decode / encode, the cache key list after every request vs the model's 
 Templates that are not ScopeClosed (an operator opened inside a replication body and closed outside or vice
 versa) are outside the property: a few are generated, counted, and not compared.
 """
+import functools
 import itertools
 import json
 import math
+import multiprocessing
 import os
+import random
+import sys
+import time
 
 from harness import core, tables_io
 from harness import coder_io as C
@@ -45,8 +57,9 @@ META = dict(
          'bounded for every request history and every limit (0 included); (5) the decoder and encoder primitives satisfy the frame '
          'law. The link model-implementation is the checked correspondence: oracle compiled-vs-uncompiled and '
          'reloaded-vs-original on the implementation (generated templates of every operator, '
-         'Table D rows of versions >= 19 with forced replication factors, corpus, cache limits 0/1/2/50 with random message '
-         'orders, decode and encode) and model-vs-implementation correspondence of statement lists (to_dict vs dump), exec '
+         'Table D rows of versions >= 19 with forced replication factors, corpus, cache limits 0/1/2/50 with request '
+         'histories over families of near-identical templates (same top-level ids / flattened ids / prefix / set of ids, other '
+         'replication body, factor, table version, order), decode and encode) and model-vs-implementation correspondence of statement lists (to_dict vs dump), exec '
          'results (also after dump/load) and cache contents.',
     technique='Lean 4 theorems (frame law of the primitives, simulation exec-of-compiled vs walk by mutual structural induction over templates, dump/load round trip by induction over statements, induction over request histories) + metamorphic oracle on the implementation + checked model/implementation correspondence',
     note='The model mirrors templatecompiler.py after the fixes F5, F6, F7, F7b, F7c; a zero-length bitmap defined by a delayed replication is the open finding F7d. '
@@ -210,17 +223,105 @@ def features(ids):
     return sorted(P.classify(ids))
 
 
-def has_zero_factor(c):
-    """a delayed replication factor of zero somewhere in the data (structure of the open finding F7d)"""
-    ids = c.ids
-    if not any(i // 100000 == 1 and i % 1000 == 0 for i in ids):
+# operators after which a bitmap may be defined by `101000 0310yy 031031`
+BITMAP_OPENERS = (222000, 223000, 224000, 225000, 232000, 236000)
+
+
+def expand_ids(ids, tabled, limit=20000):
+    """the template with every Table D sequence replaced by its members (recursively)"""
+    out = []
+
+    def walk(xs, depth):
+        for m in xs:
+            m = int(m)
+            if len(out) > limit:
+                return
+            if m // 100000 == 3 and m in tabled and depth < 16:
+                walk(tabled[m][1], depth + 1)
+            else:
+                out.append(m)
+    walk(ids, 0)
+    return out
+
+
+def zero_bitmap(ids, tabled, subsets):
+    """Structure of the open finding F7d, whatever the source of the template: the EXPANDED template defines a bitmap
+    by a delayed replication of 031031 directly after 22X000 / 232000 / 236000, and in the data (labels and values of
+    the plain coder, one dict {'d', 'v'} per subset) the factor that directly follows such an operator is 0."""
+    flat = expand_ids(ids, tabled)
+    factors = set()
+    for k in range(len(flat) - 3):
+        if flat[k] in BITMAP_OPENERS and flat[k + 1] == 101000 and flat[k + 2] // 1000 == 31 and flat[k + 3] == 31031:
+            factors.add('%06d' % flat[k + 2])
+    if not factors:
         return False
-    return any(v == 0 for vs in (c.valss or []) for v in vs)
+    openers = set('%06d' % o for o in BITMAP_OPENERS)
+    for s in subsets or []:
+        ds, vs = s['d'], s['v']
+        for k in range(1, min(len(ds), len(vs))):
+            if ds[k] in factors and ds[k - 1] in openers and vs[k] == 0 and vs[k] is not False:
+                return True
+    return False
 
 
-def evaluate(ctx, drv, treq, cases, version=None, source='gen'):
-    """cases have values; runs implementation (plain, compiled, reloaded) and model; reports"""
+def plain_subsets(c, e, d):
+    """labels and values per subset as the plain coder saw them (decode if there is one, else the encoder's labels with
+    the values that were encoded)"""
+    if d is not None and d['plain'][0] == 'ok':
+        return d['plain'][1]
+    if e['plain'][0] == 'ok' and c.valss is not None:
+        return [{'d': s['d'], 'v': vs} for s, vs in zip(e['plain'][2], P.py_inputs(c.valss))]
+    return []
+
+
+@functools.lru_cache(maxsize=4)
+def group(version):
+    """(tables request for the driver, Table B, Table D) of a bundled master version"""
+    b, d = tables_io.read_group(('0', '0_0', str(version or C.DEFAULT_VERSION)))
+    return tables_io.tables_request(b, d), b, d
+
+
+class Rec(object):
+    """What an evaluation reports (the reporting part of core.Context): recorded in a worker process and merged into
+    the Context by the parent, in the order of the jobs."""
+
+    def __init__(self):
+        self.events = []
+        self.traces = 0
+        self.samples = []
+
+    def case(self, obj, nontrivial=True, sample=False):
+        keep = bool(sample) and len(self.samples) < 4
+        if keep:
+            self.samples.append(obj)
+        self.events.append(('case', core.chash(obj) if nontrivial else None, obj if keep else None))
+
+    def count(self, key, n=1):
+        self.events.append(('count', key, n))
+
+    def violation(self, what, replay, signature=None, **kw):
+        self.events.append(('violation', what, replay, signature))
+
+    def merge(self, ctx):
+        counts = {}
+        for ev in self.events:
+            if ev[0] == 'case':
+                ctx.evaluations += 1
+                if ev[1] is not None:
+                    ctx.nontrivial.add(ev[1])
+                if ev[2] is not None and len(ctx.samples) < 4:
+                    ctx.samples.append(ev[2])
+            elif ev[0] == 'count':
+                ctx.count(ev[1], ev[2])
+            else:
+                ctx.violation(ev[1], ev[2], signature=ev[3])
+        ctx.traces += self.traces
+
+
+def evaluate(ctx, drv, cases, version=None, source='gen'):
+    """cases have values; runs implementation (plain, compiled, reloaded) and model; reports (ctx: Context or Rec)"""
     over = {'master_table_version': version} if version else None
+    treq, _, tabled = group(version)
     reqs = [treq]
     rows = []
     for c in cases:
@@ -292,7 +393,7 @@ def evaluate(ctx, drv, treq, cases, version=None, source='gen'):
             bad = [m for m in ('compiled', 'reload') if e[m][0] == 'err:other' and e['plain'][0] != 'err:other']
             ctx.count('scope-open-crash' if bad else 'scope-open-evaluated')
             continue
-        known = 'zero-count-open-scope' if (not closed and has_zero_factor(c)) else None
+        known = 'zero-count-open-scope' if (not closed and zero_bitmap(c.ids, tabled, plain_subsets(c, e, d))) else None
         for mode in ('compiled', 'reload'):
             why = same_impl(e['plain'], e[mode])
             if why:
@@ -457,25 +558,75 @@ FACTOR_MAX = {31000: 1, 31001: 3, 31002: 3, 31011: 3, 31012: 3}
 
 
 # ---------------------------------------------------------------------------------------------
+# jobs: chunks of cases / corpus files / cache rounds, evaluated in worker processes (one Driver each)
+def _job(job):
+    kind = job[0]
+    drv = core.Driver()
+    rec = Rec()
+    t0 = time.time()
+    if kind == 'cases':
+        _, version, source, cases, seed = job
+        treq = group(version)[0]
+        cases = P.gen_values(drv, treq, cases, random.Random(seed))
+        if source == 'tableD':
+            rec.count('tableD-cases', len(cases))
+        evaluate(rec, drv, cases, version=version, source=source)
+    elif kind == 'corpus':
+        corpus_file(rec, drv, job[1])
+    elif kind == 'cache':
+        cache_round(rec, drv, job[1], job[2])
+    else:
+        raise core.MachineryError('unknown job %r' % (kind,))
+    return rec, kind if kind != 'cases' else job[2], time.time() - t0
+
+
+def run_jobs(ctx, jobs):
+    """evaluates the jobs on up to 16 processes and merges what they report in the order of the jobs"""
+    if not jobs:
+        return
+    nproc = min(16, os.cpu_count() or 1, len(jobs))
+    if nproc <= 1 or os.environ.get('VERIF_C08_SERIAL'):
+        results = [_job(j) for j in jobs]
+    else:
+        with multiprocessing.Pool(nproc) as pool:
+            results = pool.map(_job, jobs, chunksize=1)
+    spent = {}
+    for rec, what, dt in results:
+        rec.merge(ctx)
+        spent[what] = spent.get(what, 0.0) + dt
+    if os.environ.get('VERIF_C08_TIMING'):
+        sys.stderr.write('C08 cpu-seconds per part: %s\n' % ', '.join('%s=%.1f' % kv for kv in sorted(spent.items())))
+
+
+def chunked(version, source, cases, rng, size):
+    return [('cases', version, source, cases[k:k + size], rng.randrange(1 << 30)) for k in range(0, len(cases), size)]
+
+
 def run(ctx):
-    drv = ctx.driver
     ctx.rule = ('generated / Table D case: the template has a replication, sequence or operator and at least one non-missing '
                 'value; corpus file: decodes; cache history: at least one eviction or hit')
-    treq33 = tables_io.group_request()
     quick = ctx.tier == 'quick'
+    size = 24 if quick else 60
+    jobs = []
+
+    # (e) cache sizes and message orders over families of near-identical templates (longest jobs first)
+    rng = ctx.rng('cache')
+    for rnd in range(6 if quick else 48):
+        jobs.append(('cache', rng.randrange(1 << 30), ctx.tier))
+
+    # (d) corpus
+    for path in P.corpus_files(ctx.tier, ctx.rng('corpus'), quick_n=40):
+        jobs.append(('corpus', path))
 
     # (a) shared pipeline, levels 0-2
     rng = ctx.rng('gen')
     for level, count in ((0, 40 if quick else 600), (1, 90 if quick else 1500), (2, 130 if quick else 2500)):
         cases = P.gen_cases(rng, count, level=level, max_subsets=3)
-        cases = P.gen_values(drv, treq33, cases, rng)
-        evaluate(ctx, drv, treq33, cases, source='gen-level%d' % level)
+        jobs += chunked(None, 'gen-level%d' % level, cases, rng, size)
 
     # (b) scoped operators, marker operators with operators in force, open scopes
     rng = ctx.rng('scoped')
-    cases = scoped_cases(rng, 160 if quick else 3000)
-    cases = P.gen_values(drv, treq33, cases, rng)
-    evaluate(ctx, drv, treq33, cases, source='scoped')
+    jobs += chunked(None, 'scoped', scoped_cases(rng, 160 if quick else 3000), rng, size)
 
     # (c) Table D rows
     rng = ctx.rng('tabled')
@@ -486,7 +637,6 @@ def run(ctx):
         by_version.setdefault(v, []).append(sid)
     for v in sorted(by_version):
         b, d = tables_io.read_group(('0', '0_0', str(v)))
-        treq = tables_io.tables_request(b, d)
         cases = []
         for sid in by_version[v]:
             info = expand_info(d, b, sid)
@@ -514,86 +664,83 @@ def run(ctx):
                         forced.setdefault(f, []).append(val)
                 c = P.Case([[sid]], [[k, x] for k, x in sorted(forced.items())], rng.choice([1, 1, 2]), rng.random() < 0.4, 4, len(cases))
                 cases.append(c)
-        cases = P.gen_values(drv, treq, cases, rng)
-        ctx.count('tableD-cases', len(cases))
-        for k in range(0, len(cases), 200):
-            evaluate(ctx, drv, treq, cases[k:k + 200], version=v, source='tableD')
+        jobs += chunked(v, 'tableD', cases, rng, size)
 
-    # (d) corpus
-    corpus(ctx, drv)
-
-    # (e) cache sizes and message orders
-    cache_histories(ctx, drv)
+    run_jobs(ctx, jobs)
 
 
 # ---------------------------------------------------------------------------------------------
-def corpus(ctx, drv):
+def corpus_file(ctx, drv, path):
     from pybufrkit.renderer import FlatJsonRenderer
-    files = P.corpus_files(ctx.tier, ctx.rng('corpus'), quick_n=40)
-    for path in files:
-        name = path.split('/')[-1]
-        with open(path, 'rb') as f:
-            raw = f.read()
-        b = raw[raw.find(b'BUFR'):]
-        from pybufrkit.decoder import Decoder
-        try:
-            msg = Decoder().process(b, wire_template_data=False)
-        except Exception as e:  # noqa
-            ctx.count('corpus-skipped:' + core.err_tag(e))
-            continue
-        b = msg.serialized_bytes
-        d = {m: dec_with(_decoder(m), b) for m in ('plain', 'compiled', 'reload')}
-        key = msg.table_group_key
-        tb, td = tables_io.read_group(key.wmo_tables_sn, key.local_tables_sn, key.tables_root_dir)
-        treq = tables_io.tables_request(tb, td)
-        nsub, comp, ids = P.parse_section3(b)
-        bits = C.data_bits(b)
-        res = drv.batch([treq, {'op': 'compile', 'ids': ids},
-                         {'op': 'dec-data-compiled', 'ids': ids, 'compressed': comp, 'n': nsub, 'bits': bits},
-                         {'op': 'dec-data-compiled', 'ids': ids, 'compressed': comp, 'n': nsub, 'bits': bits, 'reload': True}])[1:]
-        ctx.case({'file': name, 'ids': len(ids), 'subsets': nsub}, nontrivial=True, sample=False)
-        ctx.count('corpus-files')
-        ctx.count('corpus-scope-closed' if res[0].get('closed') else ('corpus-scope-loose' if res[0].get('loose') else 'corpus-scope-open'))
-        for f in features(ids):
-            ctx.count('corpus:' + f)
+    from pybufrkit.decoder import Decoder
+    from pybufrkit.tables import TableGroupCacheManager
+    name = path.split('/')[-1]
+    with open(path, 'rb') as f:
+        raw = f.read()
+    b = raw[raw.find(b'BUFR'):]
+    try:
+        msg = Decoder().process(b, wire_template_data=False)
+    except Exception as e:  # noqa
+        ctx.count('corpus-skipped:' + core.err_tag(e))
+        return
+    b = msg.serialized_bytes
+    d = {m: dec_with(_decoder(m), b) for m in ('plain', 'compiled', 'reload')}
+    key = msg.table_group_key
+    tb, td = tables_io.read_group(key.wmo_tables_sn, key.local_tables_sn, key.tables_root_dir)
+    treq = tables_io.tables_request(tb, td)
+    nsub, comp, ids = P.parse_section3(b)
+    bits = C.data_bits(b)
+    res = drv.batch([treq, {'op': 'compile', 'ids': ids},
+                     {'op': 'dec-data-compiled', 'ids': ids, 'compressed': comp, 'n': nsub, 'bits': bits},
+                     {'op': 'dec-data-compiled', 'ids': ids, 'compressed': comp, 'n': nsub, 'bits': bits, 'reload': True}])[1:]
+    ctx.case({'file': name, 'ids': len(ids), 'subsets': nsub}, nontrivial=True, sample=False)
+    ctx.count('corpus-files')
+    ctx.count('corpus-scope-closed' if res[0].get('closed') else ('corpus-scope-loose' if res[0].get('loose') else 'corpus-scope-open'))
+    for f in features(ids):
+        ctx.count('corpus:' + f)
+    known = None
+    if not res[0].get('closed') and d['plain'][0] == 'ok' and zero_bitmap(ids, td, d['plain'][1]):
+        known = 'zero-count-open-scope'
 
-        def rep(stage, why):
-            ctx.violation('corpus file %s: %s: %s' % (name, stage, why), {'file': path, 'why': why, 'stage': stage},
-                          signature={'stage': stage, 'file': name})
-        from pybufrkit.tables import TableGroupCacheManager
-        ic = impl_compile(ids, TableGroupCacheManager.get_table_group_by_key(key))
-        if ic[0] == 'ok' and 'prog' in res[0]:
-            pd = prog_diff(ic[1], res[0]['prog'])
-            if pd:
-                rep('compile-rendering', pd)
-        elif ic[0] != C.model_err(res[0]):
-            rep('compile-status', '%s vs %s' % (ic[0], C.model_err(res[0])))
-        for mode, mres in (('compiled', res[1]), ('reload', res[2])):
-            mres = dict(mres, rest=0)      # some files carry a data section longer than their data
-            why = P.compare_decode(d[mode], mres)
-            if why:
-                rep('model-exec-decode-' + mode, why)
-        ctx.traces += 1
-        if not res[0].get('loose'):
-            continue
-        for mode in ('compiled', 'reload'):
-            why = same_impl(d['plain'], d[mode])
-            if why:
-                rep('oracle-decode-' + mode, why)
-        # re-encode from the flat JSON with and without compilation
-        try:
-            js = json.loads(FlatJsonRenderer().render(msg))
-        except Exception:  # noqa
-            continue
-        e = {m: enc_with(_encoder(m), js) for m in ('plain', 'compiled', 'reload')}
-        ctx.count('corpus-reencoded' if e['plain'][0] == 'ok' else 'corpus-reencode-refused')
-        for mode in ('compiled', 'reload'):
-            why = same_impl(e['plain'], e[mode])
-            if why:
-                rep('oracle-encode-' + mode, why)
+    def rep(stage, why, known=None):
+        sig = {'stage': stage, 'file': name}
+        if known:
+            sig['kind'] = known
+        ctx.violation('corpus file %s: %s: %s' % (name, stage, why), {'file': path, 'why': why, 'stage': stage}, signature=sig)
+    ic = impl_compile(ids, TableGroupCacheManager.get_table_group_by_key(key))
+    if ic[0] == 'ok' and 'prog' in res[0]:
+        pd = prog_diff(ic[1], res[0]['prog'])
+        if pd:
+            rep('compile-rendering', pd)
+    elif ic[0] != C.model_err(res[0]):
+        rep('compile-status', '%s vs %s' % (ic[0], C.model_err(res[0])))
+    for mode, mres in (('compiled', res[1]), ('reload', res[2])):
+        mres = dict(mres, rest=0)      # some files carry a data section longer than their data
+        why = P.compare_decode(d[mode], mres)
+        if why:
+            rep('model-exec-decode-' + mode, why)
+    ctx.traces += 1
+    if not res[0].get('loose'):
+        return
+    for mode in ('compiled', 'reload'):
+        why = same_impl(d['plain'], d[mode])
+        if why:
+            rep('oracle-decode-' + mode, why, known)
+    # re-encode from the flat JSON with and without compilation
+    try:
+        js = json.loads(FlatJsonRenderer().render(msg))
+    except Exception:  # noqa
+        return
+    e = {m: enc_with(_encoder(m), js) for m in ('plain', 'compiled', 'reload')}
+    ctx.count('corpus-reencoded' if e['plain'][0] == 'ok' else 'corpus-reencode-refused')
+    for mode in ('compiled', 'reload'):
+        why = same_impl(e['plain'], e[mode])
+        if why:
+            rep('oracle-encode-' + mode, why, known)
 
 
 # ---------------------------------------------------------------------------------------------
+# (e) the compiled-template cache: histories over FAMILIES of near-identical templates
 def version_pair():
     """two bundled versions and an element id whose width differs between them"""
     vs = [v for v in tables_io.bundled_versions() if v >= 13]
@@ -609,87 +756,376 @@ def version_pair():
     return None, None
 
 
-def cache_histories(ctx, drv):
+def rep_of(body, count=None, factor=None):
+    """replication of `body` (a list of ids): delayed with `factor` if there is one, else fixed with `count`"""
+    x = len(body)
+    if not factor:
+        return [100000 + 1000 * x + count] + list(body)
+    return [100000 + 1000 * x, factor] + list(body)
+
+
+class Families(object):
+    """Families of near-identical templates.  The members of one family agree in what a cheap identification of a
+    template could look at (top-level member ids, the flattened ids but not the tables, a prefix, the set or the sorted
+    list of ids, the length, the ids outside replication factors, the expansion of sequences) and differ in what it
+    could overlook.  Every member is a (ids, versions) pair; elements exist in both table versions."""
+
+    KINDS = ('rep-body', 'rep-factor', 'rep-nested', 'fixed-vs-delayed', 'version', 'prefix', 'order', 'multiset',
+             'seq-vs-expansion', 'operand', 'rep-operator')
+
+    def __init__(self, rng, v2, differing):
+        self.rng, self.v2, self.differing = rng, v2, differing
+        g1 = C.TemplateGen(rng)
+        b2, d2 = tables_io.read_group(('0', '0_0', str(v2)))
+
+        def both(pool):
+            return [i for i in pool if i in b2 and tables_io.unit_kind(b2[i][1]) == tables_io.unit_kind(g1.b[i][1])
+                    and 1 <= int(b2[i][4]) <= 256]
+        self.numeric, self.string, self.codeflag = both(g1.numeric), both(g1.string), both(g1.codeflag)
+        # elements wide enough for 201YYY / 202YYY / 203YYY to act on
+        self.wide = [i for i in self.numeric if 6 <= int(g1.b[i][4]) <= 20 and 6 <= int(b2[i][4]) <= 20] or self.numeric
+        self.seqs = [s for s in g1.small_seq if s in d2 and [int(x) for x in d2[s][1]] == [int(x) for x in g1.d[s][1]]
+                     and 2 <= len(g1.d[s][1]) <= 8
+                     and all(int(m) // 100000 == 0 and int(m) in b2 and int(m) in g1.b and int(m) // 1000 != 31 for m in g1.d[s][1])]
+        self.d = g1.d
+
+    # -- pieces
+    def els(self, n, distinct=True):
+        """n element ids (mostly numeric; of different kinds and widths so that a mix-up shows in the bits)"""
+        out = []
+        while len(out) < n:
+            r = self.rng.random()
+            i = self.rng.choice(self.numeric if r < 0.7 else (self.codeflag if r < 0.85 else self.string))
+            if distinct and i in out:
+                continue
+            out.append(i)
+        return out
+
+    def wrap(self, n=None):
+        """what surrounds the part that varies: (prefix, suffix) of 0-2 elements each"""
+        r = self.rng
+        return self.els(r.randint(0, 2)), self.els(r.randint(0, 1))
+
+    def both_versions(self, idss):
+        return [(ids, (33,)) for ids in idss]
+
+    # -- the families
+    def rep_body(self):
+        """same top-level ids, the bodies of a top-level fixed replication differ in one member (or in all)"""
+        r = self.rng
+        pre, suf = self.wrap()
+        x = r.randint(1, 4)
+        body = self.els(x)
+        count = r.randint(1, 3)
+        out = [pre + rep_of(body, count) + suf]
+        for _ in range(r.randint(1, 2)):
+            b2 = list(body)
+            for k in r.sample(range(x), r.randint(1, x)):
+                b2[k] = self.els(1)[0]
+            if b2 != body:
+                out.append(pre + rep_of(b2, count) + suf)
+        if r.random() < 0.5:
+            # ... or under a delayed replication
+            fac = r.choice([31001, 31002])
+            out = [pre + rep_of(ids[len(pre) + 1: len(pre) + 1 + x], factor=fac) + suf for ids in out]
+        return self.both_versions(out)
+
+    def rep_factor(self):
+        """same top-level ids and the same body, the replication factor descriptor differs"""
+        r = self.rng
+        pre, suf = self.wrap()
+        body = self.els(r.randint(1, 3))
+        facs = r.sample([31000, 31001, 31002], r.randint(2, 3))
+        return self.both_versions([pre + rep_of(body, factor=f) + suf for f in facs])
+
+    def pick(self, must, extra, lo=0, hi=2):
+        """the members that make the family (`must`: they differ in nothing but the family's dimension) + some of `extra`"""
+        out = [list(m) for m in must]
+        for f in self.rng.sample(extra, min(len(extra), self.rng.randint(lo, hi))):
+            if list(f) not in out:
+                out.append(list(f))
+        return out
+
+    def rep_nested(self):
+        """the difference sits two or three replications deep (innermost element, inner factor, inner count)"""
+        r = self.rng
+        pre, suf = self.wrap()
+        a, b, c = self.els(3)
+
+        def inner_of(el, count=2, factor=None, tail=c):
+            return rep_of([el], count, factor) + [tail]
+        base = inner_of(a) if r.random() < 0.6 else inner_of(a, factor=31001)
+        deep = inner_of(b) if base == inner_of(a) else inner_of(b, factor=31001)
+        extra = [inner_of(a, 3), inner_of(a, factor=31001), inner_of(a, factor=31002), inner_of(a, tail=b), inner_of(b, factor=31002)]
+        inners = self.pick([base, deep], extra, 0, 3)
+        if r.random() < 0.3:
+            # one more level: (outer (middle (inner ...)))
+            mid_delayed = r.random() < 0.5
+            inners = [rep_of(i, 2, 31001 if mid_delayed else None) for i in inners]
+        cnt = r.randint(1, 2)
+        delayed = r.random() < 0.5
+        return self.both_versions([pre + rep_of(i, cnt, 31001 if delayed else None) + suf for i in inners])
+
+    def fixed_vs_delayed(self):
+        """the same body under a fixed replication (counts 1-3) and under delayed replications, and written out"""
+        r = self.rng
+        pre, suf = self.wrap()
+        body = self.els(r.randint(1, 3))
+        fixed = [rep_of(body, 1), rep_of(body, 2), rep_of(body, 3)]
+        delayed = [rep_of(body, factor=31001), rep_of(body, factor=31000), rep_of(body, factor=31002)]
+        must = [r.choice(fixed), r.choice(delayed)]
+        return self.both_versions([pre + f + suf for f in self.pick(must, fixed + delayed + [list(body), list(body) * 2], 0, 3)])
+
+    def version(self):
+        """the same ids under two table versions that give one of the elements a different width"""
+        r = self.rng
+        x = self.differing
+        pre, suf = self.wrap()
+        form = r.choice([[x], rep_of([x], 2), rep_of([x], factor=31001), [201130, x, 201000], self.els(1) + [x]])
+        out = [(pre + form + suf, (33, self.v2))]
+        if r.random() < 0.5:
+            out.append((pre + self.els(1) + suf, (33, self.v2)))
+        return out
+
+    def prefix(self):
+        """prefixes / extensions of one template"""
+        r = self.rng
+        full = self.els(r.randint(3, 5))
+        if r.random() < 0.5:
+            k = r.randint(0, len(full) - 2)
+            full = full[:k] + rep_of(full[k:k + 1], 2) + full[k + 1:]
+        cuts = [k for k in range(1, len(full) + 1) if not (full[k - 1] // 100000 == 1)]
+        out = [full[:k] for k in r.sample(cuts, min(len(cuts), r.randint(2, 4)))]
+        if r.random() < 0.5:
+            out.append(full + self.els(1))
+        return self.both_versions(out)
+
+    def order(self):
+        """the same ids in a different order"""
+        r = self.rng
+        base = self.els(r.randint(2, 4))
+        if r.random() < 0.5:
+            base = base + [100000 + 1000 + r.randint(2, 3)]          # 101002 moves around with the elements
+        perms = set()
+        for _ in range(12):
+            p = list(base)
+            r.shuffle(p)
+            if p[-1] // 100000 != 1:
+                perms.add(tuple(p))
+        perms = sorted(perms)
+        r.shuffle(perms)
+        return self.both_versions([list(p) for p in perms[:r.randint(2, 4)]])
+
+    def multiset(self):
+        """the same set of ids with different multiplicities; the same length; the same sum"""
+        r = self.rng
+        a, b, c = self.els(3)
+        must = r.choice([[[a, a, b], [a, b, b]], [[a, b], [a, a, b]], [[a, b, a], [a, a, b]], [[a, b], [a, b, b]]])
+        extra = [[a, b], [a, a, b], [a, b, b], [a, b, a], [b, a], [a, b, c], [a, a, a], [a]]
+        if a + 1 in self.numeric and b - 1 in self.numeric and b - 1 != a:
+            extra.append([a + 1, b - 1])                      # same length, same sum
+        return self.both_versions(self.pick(must, extra, 0, 2))
+
+    def seq_vs_expansion(self):
+        """a sequence, its expansion, the expansion with one member changed, the same under a replication"""
+        r = self.rng
+        if not self.seqs:
+            return self.multiset()
+        s = r.choice(self.seqs)
+        members = [int(m) for m in self.d[s][1]]
+        changed = list(members)
+        changed[r.randrange(len(members))] = self.els(1)[0]
+        pre, suf = self.wrap()
+        plain = [[s], members, changed]
+        fixed = [rep_of([s], 2), rep_of(members, 2), rep_of(changed, 2)]
+        delayed = [rep_of([s], factor=31001), rep_of(members, factor=31001), rep_of(changed, factor=31001)]
+        group_ = r.choice([plain, fixed, delayed])
+        return self.both_versions([pre + f + suf for f in self.pick(group_[:2], [group_[2]] + plain + fixed, 0, 2)])
+
+    OPERATOR_PAIRS = (((201130,), (201000,)), ((201131,), (201000,)), ((201129,), (201000,)), ((202129,), (202000,)),
+                      ((207001,), (207000,)), ((207002,), (207000,)), ((201130, 202129), (202000, 201000)), ((), ()))
+
+    def operand(self):
+        """the templates differ in the operand of one operator (or in which operator it is)"""
+        r = self.rng
+        a = r.choice(self.wide)
+        pre, suf = self.wrap()
+        forms = [list(o) + [a] + list(c) for o, c in self.OPERATOR_PAIRS]
+        must = r.choice([[forms[0], forms[1]], [forms[4], forms[5]], [forms[0], forms[3]], [forms[1], forms[2]]])
+        return self.both_versions([pre + f + suf for f in self.pick(must, forms, 0, 2)])
+
+    def rep_operator(self):
+        """the difference is an operator (or its operand) inside the span of a top-level replication"""
+        r = self.rng
+        a = r.choice(self.wide)
+        pre, suf = self.wrap()
+        bodies = [list(o) + [a] + list(c) for o, c in self.OPERATOR_PAIRS if len(o) == 1]      # all of three ids
+        must = r.choice([[bodies[0], bodies[1]], [bodies[4], bodies[5]], [bodies[0], bodies[3]], [bodies[1], bodies[2]]])
+        delayed = r.random() < 0.5
+        cnt = r.randint(1, 3)
+        return self.both_versions([pre + rep_of(b, cnt, 31001 if delayed else None) + suf for b in self.pick(must, bodies, 0, 1)])
+
+    def make(self, kind):
+        return getattr(self, kind.replace('-', '_'))()
+
+
+def family_pool(rng, v2, differing, n_families):
+    """-> list of (family index, kind, ids, version), every kind at least once when n_families allows"""
+    fam = Families(rng, v2, differing)
+    kinds = list(Families.KINDS)
+    rng.shuffle(kinds)
+    while len(kinds) < n_families:
+        kinds.append(rng.choice(Families.KINDS))
+    pool, seen = [], set()
+    for fi, kind in enumerate(kinds[:n_families]):
+        for ids, versions in fam.make(kind):
+            for v in versions:
+                if (tuple(ids), v) in seen:
+                    continue
+                seen.add((tuple(ids), v))
+                pool.append((fi, kind, ids, v))
+    return pool
+
+
+def family_walk(rng, by_family, length):
+    """a request order that stays inside a family most of the time: near-identical templates are requested one after
+    the other (that is what a cache of one entry needs to mix them up), with repeats (hits) and jumps"""
+    fams = sorted(by_family)
+    order = []
+    f = rng.choice(fams)
+    while len(order) < length:
+        r = rng.random()
+        if order and r < 0.12:
+            order.append(order[-1])                       # the same message again
+        elif order and r < 0.22 and len(order) >= 2:
+            order.append(order[-2])                       # A B A
+        else:
+            if r > 0.72:
+                f = rng.choice(fams)
+            order.append(rng.choice(by_family[f]))
+    return order
+
+
+def cache_round(ctx, drv, seed, tier):
+    """one pool of messages (families of near-identical templates x data variants), one request order, every cache
+    limit: each compiled result against the uncompiled one of the same message (decode and encode), the cache key list
+    after every request against the model"""
     from pybufrkit.decoder import Decoder
     from pybufrkit.encoder import Encoder
-    rng = ctx.rng('cache')
+    rng = random.Random(seed)
     v2, differing = version_pair()
     if v2 is None:
         raise core.MachineryError('no two bundled versions with a differing element width')
-    base = [[1001, 1002], [differing, 12001], [101000, 31001, differing], [102002, 1001, differing], [4001, 4002, 4003],
-            [201130, differing, 201000], [differing]]
-    rounds = 3 if ctx.tier == 'quick' else 25
-    for rnd in range(rounds):
-        # messages: (template index, version)
-        pool = []
-        for ti, ids in enumerate(base):
-            for v in (33, v2):
-                pool.append((ti, v, ids))
-        rng.shuffle(pool)
-        pool = pool[:rng.randint(6, len(pool))]
-        if len(set(p[0] for p in pool)) < 5 or len(set(p[1] for p in pool)) < 2:
-            pool = [(ti, v, ids) for ti, ids in enumerate(base) for v in (33, v2)]
-        msgs = {}
-        for ti, v, ids in pool:
-            b, d = tables_io.read_group(('0', '0_0', str(v)))
-            treq = tables_io.tables_request(b, d)
-            c = P.Case([ids], [], rng.randint(1, 2), False, 4, 0)
-            got = P.gen_values(drv, treq, [c], rng)
-            if not got:
+    quick = tier == 'quick'
+    pool = family_pool(rng, v2, differing, len(Families.KINDS) if quick else len(Families.KINDS) + 4)
+    # values: one driver batch per version; two data variants per template (other values, other counts, compression)
+    cases = {}
+    for v in (33, v2):
+        cs = []
+        for ti, (fi, kind, ids, pv) in enumerate(pool):
+            if pv != v:
                 continue
-            js = C.make_message_json(ids, P.py_inputs(c.valss), False, overrides={'master_table_version': v})
+            for variant in range(2):
+                c = P.Case([ids], [], rng.randint(1, 3), variant == 1 and rng.random() < 0.5, 4, ti)
+                c.note = variant
+                cs.append(c)
+        cases[v] = P.gen_values(drv, group(v)[0], cs, rng)
+    msgs, by_family, kinds = {}, {}, {}
+    for v in (33, v2):
+        for c in cases[v]:
+            js = C.make_message_json(c.ids, P.py_inputs(c.valss), c.comp, overrides={'master_table_version': v})
             e = enc_with(Encoder(), js)
             if e[0] != 'ok':
+                ctx.count('cache-message-refused')
                 continue
-            msgs[(ti, v)] = (js, e, dec_with(Decoder(), e[1]))
-        keys = sorted(msgs)
-        if not keys:
-            continue
-        order = [rng.choice(keys) for _ in range(rng.randint(10, 40))]
-        for cmax in (0, 1, 2, 50):
+            key = (c.idx, c.note)                          # (template = cache key, data variant)
+            msgs[key] = (js, e, dec_with(Decoder(), e[1]))
+            by_family.setdefault(pool[c.idx][0], []).append(key)
+            kinds[pool[c.idx][0]] = pool[c.idx][1]
+    if not msgs:
+        return
+    for fi in by_family:
+        if len(set(k[0] for k in by_family[fi])) >= 2:
+            ctx.count('cache-family:' + kinds[fi])
+    ctx.count('cache-templates', len(set(k[0] for k in msgs)))
+    order = family_walk(rng, by_family, rng.randint(60, 120) if quick else rng.randint(60, 250))
+    tmpl = sorted(set(k[0] for k in order))
+    nat = {t: i + 1 for i, t in enumerate(tmpl)}
+
+    def describe(k):
+        fi, kind, ids, v = pool[k[0]]
+        return {'family': kind, 'ids': ids, 'version': v, 'message': msgs[k][0]}
+
+    for cmax in (0, 1, 2, 50):
+        dec = Decoder(compiled_template_cache_max=cmax)
+        enc = Encoder(compiled_template_cache_max=cmax)
+        steps_d, steps_e = [], []
+        bad = None
+        for pos, k in enumerate(order):
+            js, e_ref, d_ref = msgs[k]
+            d = dec_with(dec, e_ref[1])
+            e = enc_with(enc, js)
+            why = same_impl(d_ref, d)
+            if why and not bad:
+                bad = ('oracle-cache-decode', pos, why)
+            why = same_impl(e_ref, e)
+            if why and not bad:
+                bad = ('oracle-cache-encode', pos, why)
+            steps_d.append(list(dec.compiled_template_manager.cache.keys()))
+            steps_e.append(list(enc.compiled_template_manager.cache.keys()))
+        # map implementation keys to request keys: the key inserted at a step is the requested one
+        model = drv.batch([{'op': 'compiled-cache', 'keys': [nat[k[0]] for k in order], 'max': cmax}])[0]['steps']
+        for name, steps in (('decoder', steps_d), ('encoder', steps_e)):
+            seen = {}
+            for pos, (k, ks, m) in enumerate(zip(order, steps, model)):
+                for ik in ks:
+                    if ik not in seen:
+                        seen[ik] = nat[k[0]]      # first appearance: inserted by this request
+                got = [seen[ik] for ik in ks]
+                if got != m['keys'] and not bad:
+                    bad = ('cache-keys-' + name, pos, 'implementation cache %s, model %s (limit %d)' % (got, m['keys'], cmax))
+                if len(ks) > max(cmax, 0) and not bad:
+                    bad = ('cache-bound-' + name, pos, '%d entries with limit %d' % (len(ks), cmax))
+        hits = sum(1 for m in model if m['hit'])
+        ctx.case({'cache_max': cmax, 'order': [[pool[k[0]][2], pool[k[0]][3], k[1]] for k in order]},
+                 nontrivial=len(order) > len(tmpl), sample=False)
+        ctx.traces += 1
+        ctx.count('cache-history-max%d' % cmax)
+        ctx.count('cache-requests', len(order))
+        ctx.count('cache-hits', hits)
+        if bad:
+            stage, pos, why = bad
+            rep = {'cache_max': cmax, 'round_seed': seed, 'tier': tier, 'stage': stage, 'why': why, 'request': pos,
+                   'order': [[pool[k[0]][2], pool[k[0]][3], k[1]] for k in order[:pos + 1]]}
+            what = '%s at request %d (cache limit %d): %s' % (stage, pos, cmax, why)
+            if stage.startswith('oracle'):
+                pair = shrink_history(msgs, order[:pos + 1], cmax, stage)
+                if pair:
+                    rep['shrunk'] = [describe(k) for k in pair]
+                    what += '; shrunk to %s' % ' then '.join('%s (v%d)' % (pool[k[0]][2], pool[k[0]][3]) for k in pair)
+            ctx.violation(what, rep, signature={'stage': stage, 'cache_max': cmax})
+
+
+def shrink_history(msgs, order, cmax, stage):
+    """the shortest history found that still fails on its last request: one earlier request + the failing one"""
+    from pybufrkit.decoder import Decoder
+    from pybufrkit.encoder import Encoder
+    last = order[-1]
+
+    def fails(hist):
+        if stage.endswith('decode'):
             dec = Decoder(compiled_template_cache_max=cmax)
+            got = [same_impl(msgs[k][2], dec_with(dec, msgs[k][1][1])) for k in hist]
+        else:
             enc = Encoder(compiled_template_cache_max=cmax)
-            keymap = {}
-            steps_d, steps_e = [], []
-            bad = None
-            for pos, k in enumerate(order):
-                js, e_ref, d_ref = msgs[k]
-                d = dec_with(dec, e_ref[1])
-                e = enc_with(enc, js)
-                why = same_impl(d_ref, d)
-                if why and not bad:
-                    bad = ('oracle-cache-decode', pos, why)
-                why = same_impl(e_ref, e)
-                if why and not bad:
-                    bad = ('oracle-cache-encode', pos, why)
-                for mgr, steps in ((dec.compiled_template_manager, steps_d), (enc.compiled_template_manager, steps_e)):
-                    ks = list(mgr.cache.keys())
-                    steps.append(ks)
-            # map implementation keys to request keys: the key inserted at a step is the requested one
-            nat = {k: i + 1 for i, k in enumerate(keys)}
-            model = drv.batch([{'op': 'compiled-cache', 'keys': [nat[k] for k in order], 'max': cmax}])[0]['steps']
-            for name, steps in (('decoder', steps_d), ('encoder', steps_e)):
-                seen = {}
-                for pos, (k, ks, m) in enumerate(zip(order, steps, model)):
-                    for ik in ks:
-                        if ik not in seen:
-                            seen[ik] = nat[k]      # first appearance: inserted by this request
-                    got = [seen[ik] for ik in ks]
-                    if got != m['keys'] and not bad:
-                        bad = ('cache-keys-' + name, pos, 'implementation cache %s, model %s (limit %d)' % (got, m['keys'], cmax))
-                    if len(ks) > max(cmax, 0) and not bad:
-                        bad = ('cache-bound-' + name, pos, '%d entries with limit %d' % (len(ks), cmax))
-            hits = sum(1 for m in model if m['hit'])
-            ctx.case({'cache_max': cmax, 'order': [list(k) for k in order]}, nontrivial=len(order) > len(set(order)),
-                     sample=False)
-            ctx.traces += 1
-            ctx.count('cache-history-max%d' % cmax)
-            ctx.count('cache-hits', hits)
-            if bad:
-                ctx.violation('%s at request %d: %s' % bad,
-                              {'cache_max': cmax, 'order': [list(k) for k in order], 'templates': base, 'versions': [33, v2],
-                               'stage': bad[0], 'why': bad[2]},
-                              signature={'stage': bad[0], 'cache_max': cmax})
+            got = [same_impl(msgs[k][1], enc_with(enc, msgs[k][0])) for k in hist]
+        return bool(got[-1]) and not any(got[:-1])
+    if fails([last]):
+        return [last]
+    for k in reversed(order[:-1]):
+        if fails([k, last]):
+            return [k, last]
+    return None
 
 
 # ---------------------------------------------------------------------------------------------
@@ -701,30 +1137,16 @@ def replay(ctx, path):
     if 'undischarged' in rep:
         print('replay: proof obligations are re-checked by every run (audit step)')
         return
+    before = ctx.violations
     if 'file' in rep:
-        before = ctx.violations
-        ctx.tier = 'thorough'
-        files = [rep['file']]
-        orig = P.corpus_files
-        P.corpus_files = lambda tier, rng, quick_n=40: files
-        try:
-            corpus(ctx, drv)
-        finally:
-            P.corpus_files = orig
-        print('replay corpus file:', 'fails' if ctx.violations > before else 'passes')
+        corpus_file(ctx, drv, rep['file'])
+        print('replay corpus file:', 'fails' if ctx.violations > before or ctx.known_hits else 'passes')
         return
-    if 'order' in rep:
-        print('replay: cache histories are regenerated from the seed; run ./check C08 with VERIF_SEED=%s' % body.get('seed'))
-        cache_histories(ctx, drv)
+    if 'round_seed' in rep:
+        cache_round(ctx, drv, rep['round_seed'], rep.get('tier', 'quick'))
+        print('replay cache round:', 'fails' if ctx.violations > before else 'passes')
         return
     c = P.Case([rep['ids']], rep.get('forced', []), rep['n_subsets'], rep['compressed'], rep.get('edition', 4))
     c.valss = rep['values']
-    v = rep.get('version')
-    if v:
-        b, d = tables_io.read_group(('0', '0_0', str(v)))
-        treq = tables_io.tables_request(b, d)
-    else:
-        treq = tables_io.group_request()
-    before = ctx.violations
-    evaluate(ctx, drv, treq, [c], version=v, source=rep.get('source', 'replay'))
+    evaluate(ctx, drv, [c], version=rep.get('version'), source=rep.get('source', 'replay'))
     print('replay:', 'fails' if ctx.violations > before or ctx.known_hits else 'passes')
